@@ -31,7 +31,7 @@ j = s.index("\n\n", i)
 s = s[:i] + table.rstrip("\n") + s[j:]
 s = re.sub(r"holds \d+ breaking changes", "holds %d breaking changes" % n, s)
 s = re.sub(r"confirmed for all \d+;", "confirmed for all %d;" % n, s)
-s = re.sub(r"Today \d+ of the \d+ are reported by their own property's check and all \d+ by some check", "Today %d of the %d are reported by their own property's check and %s by some check" % (own_now, n, "all %d" % n if any_now == n else str(any_now)), s)
+s = re.sub(r"Today \d+ of the \d+ are reported by their own property's check and (all )?\d+ by some check", "Today %d of the %d are reported by their own property's check and %s by some check" % (own_now, n, "all %d" % n if any_now == n else str(any_now)), s)
 k = s.index("Every miss was turned into a rule")
 k2 = s.index(":\n", k) + 2
 k3 = s.index(".\n", k2)
